@@ -156,10 +156,10 @@ func c20Render(tok string, e *c20Event, ev *logger.Event) []string {
 		}
 		h, p, err := net.SplitHostPort(addr)
 		if err != nil {
-			// no port: the host is the address itself
-			return []string{addr, strings.Trim(addr, "[]")}, ""
+			// no port: the host is the address itself, an IPv6 literal without its brackets (url.URL.Hostname)
+			return []string{strings.Trim(addr, "[]")}, ""
 		}
-		return []string{h, "[" + h + "]"}, p
+		return []string{h}, p // the standard library's host: "::1" for "[::1]:80"
 	}
 	switch {
 	case strings.HasPrefix(tok, "$header."):
